@@ -10,7 +10,12 @@ import (
 	"unicode/utf8"
 
 	"github.com/jf-tech/omniparser"
+	"github.com/jf-tech/omniparser/customfuncs"
 	"github.com/jf-tech/omniparser/errs"
+	"github.com/jf-tech/omniparser/extensions/omniv21"
+	v21cf "github.com/jf-tech/omniparser/extensions/omniv21/customfuncs"
+	"github.com/jf-tech/omniparser/extensions/omniv21/fileformat"
+	"github.com/jf-tech/omniparser/extensions/omniv21/samples/customfileformats/jsonlog/jsonlogformat"
 	"github.com/jf-tech/omniparser/idr"
 	"github.com/jf-tech/omniparser/schemahandler"
 	"github.com/jf-tech/omniparser/transformctx"
@@ -164,11 +169,25 @@ func NewSchema(name string, content []byte, exts ...omniparser.Extension) (s omn
 // NewSchemaFrom is NewSchema reading the schema from rd.
 func NewSchemaFrom(name string, rd io.Reader, exts ...omniparser.Extension) (s omniparser.Schema, errStr, panicStr string) {
 	defer recoverTo(&panicStr, nil)
+	// the extension that carries the repository's sample custom file format comes last: schemas of
+	// the built-in formats never get to it
+	exts = append(append([]omniparser.Extension{}, exts...), JSONLogExtension(name))
 	s, err := omniparser.NewSchema(name, rd, exts...)
 	if err != nil {
 		return nil, err.Error(), ""
 	}
 	return s, "", ""
+}
+
+// JSONLogExtension registers the sample custom file format "jsonlog" the way a caller does.
+func JSONLogExtension(schemaName string) omniparser.Extension {
+	return omniparser.Extension{
+		CreateSchemaHandler: omniv21.CreateSchemaHandler,
+		CreateSchemaHandlerParams: &omniv21.CreateParams{
+			CustomFileFormats: []fileformat.FileFormat{jsonlogformat.NewJSONLogFileFormat(schemaName)},
+		},
+		CustomFuncs: customfuncs.Merge(customfuncs.CommonCustomFuncs, v21cf.OmniV21CustomFuncs),
+	}
 }
 
 // NewTransform calls Schema.NewTransform under recover.
